@@ -562,6 +562,7 @@ func RunMicro(spec MicroSpec) vx.Out {
 	x.checkDeletedFiles()
 	x.drain()
 	x.oracle()
+	x.checkEphemeralGone()
 	obs += " | deliv=" + x.delivSummary()
 	if len(x.anomalies) > 0 {
 		obs += " | ANOMALY " + strings.Join(x.anomalies, ",")
@@ -670,6 +671,28 @@ func (x *microCtx) pauseProbe() {
 	}
 	for id, as := range x.deliv {
 		x.postWin[id] = len(as)
+	}
+}
+
+// checkEphemeralGone (C08): an ephemeral channel (and then its ephemeral topic) disappears
+// once its last consumer has left - whatever happened before. Every connection is closed
+// now; at the next idle point neither may exist any more.
+func (x *microCtx) checkEphemeralGone() {
+	if !x.spec.Eph || x.exited {
+		return
+	}
+	for _, c := range x.w.Conns {
+		if !c.Closed {
+			c.Close()
+		}
+	}
+	x.w.Sleep(100 * time.Millisecond)
+	if c := x.chanObj(); c != nil {
+		x.bad("C08 ephemeral channel still there after its last consumer left", "channel %s of topic %s exists with %d consumers (exiting=%v, depth %d) although every connection has been closed", x.ch, x.topic, len(c.clients), c.Exiting(), c.Depth())
+		return
+	}
+	if t := x.w.Topic(x.topic); t != nil && len(t.channelMap) == 0 {
+		x.bad("C08 ephemeral topic still there after its last channel went", "topic %s exists with %d channels (exiting=%v) although every connection has been closed", x.topic, len(t.channelMap), t.Exiting())
 	}
 }
 
